@@ -119,6 +119,11 @@ class State:
             return False
         if nop in ('gt', 'ge') and hi < -1e-12:
             return False
+        # strict comparisons are infeasible on the boundary itself (F < 0 cannot hold when F >= 0 everywhere)
+        if nop == 'lt' and lo >= 0.0:
+            return False
+        if nop == 'gt' and hi <= 0.0:
+            return False
         return True
 
 
